@@ -125,3 +125,42 @@ pub fn linked_zero_copy<LP: LProto>() {
     kani::cover!(true, "reached end");
     core::mem::forget(lb);
 }
+
+/// write_bytes_without_len called DIRECTLY (as emitted code does for retained unknown fields)
+/// while earlier bytes are still pending in the window: the pending bytes must precede the
+/// attached 4096-byte chunk.
+#[cfg(kani)]
+pub fn linked_zero_copy_without_len<LP: LProto>() {
+    let head: [u8; 2] = kani::any();
+    let mut payload = [0u8; 4096];
+    payload[0] = head[0];
+    payload[4095] = head[1];
+    let leaked: &'static [u8; 4096] = Box::leak(Box::new(payload));
+    let b = Bytes::from_static(&leaked[..]);
+    let x: i8 = kani::any();
+    let y: i8 = kani::any();
+    let mut lb = LinkedBytes::with_capacity(64);
+    {
+        let mut w = LP::writer(&mut lb, true);
+        ok(w.write_i8(x));
+        ok(w.write_bytes_without_len(b));
+        ok(w.write_i8(y));
+        LP::finish(w);
+    }
+    let mut n = 0;
+    let mut before_ok = false;
+    let mut node_ok = false;
+    for node in lb.iter_list() {
+        match (n, node) {
+            (0, Node::BytesMut(p)) => before_ok = p.len() == 1 && p[0] == x as u8,
+            (1, Node::Bytes(q)) => node_ok = q.len() == 4096 && q.as_ptr() == leaked.as_ptr(),
+            _ => {}
+        }
+        n += 1;
+    }
+    kani::assert(n == 2 && before_ok, "C01/C11: bytes written before an attached chunk precede it");
+    kani::assert(node_ok, "C01/C11: the chunk is attached zero-copy");
+    kani::assert(lb.bytes().len() == 1 && lb.bytes()[0] == y as u8, "C01/C11: bytes written after the attached chunk follow it");
+    kani::cover!(true, "reached end");
+    core::mem::forget(lb);
+}
